@@ -2249,7 +2249,7 @@ func (e *CoreExtension) functionMerge(args ...interface{}) (interface{}, error) 
 		} else {
 			// Use reflection for other map types
 			baseRv := reflect.ValueOf(base)
-			for _, key := range baseRv.MapKeys() {
+			for _, key := range sortedMapKeys(baseRv) {
 				keyStr := toString(key.Interface())
 				result[keyStr] = baseRv.MapIndex(key).Interface()
 			}
@@ -2266,7 +2266,7 @@ func (e *CoreExtension) functionMerge(args ...interface{}) (interface{}, error) 
 				// Use reflection for other map types
 				argRv := reflect.ValueOf(arg)
 				if argRv.Kind() == reflect.Map {
-					for _, key := range argRv.MapKeys() {
+					for _, key := range sortedMapKeys(argRv) {
 						keyStr := toString(key.Interface())
 						result[keyStr] = argRv.MapIndex(key).Interface()
 					}
